@@ -178,7 +178,7 @@ func classifyRecord(b []byte) recExpect {
 	return recExpect{Members: []memberClass{classifyMember(json.RawMessage(t))}}
 }
 
-var c02Known = map[string]bool{"ok": true, "fail": true, "x.rpc.ok": true} // "x.rpc.ok": an ordinary name that merely contains "rpc."
+var c02Known = map[string]bool{"ok": true, "fail": true, "x.rpc.ok": true, "rpcx": true, "failreq": true} // "failreq": its handler fails with the code InvalidRequest // "x.rpc.ok": an ordinary name that merely contains "rpc."
 
 // c02Judge runs one record through a fresh server and compares with the classifier.
 // It returns a class string for coverage accounting and the violations.
@@ -191,6 +191,9 @@ func c02RunOne(record []byte, push bool, prefix []int, mapOrders bool) (*vs.Exec
 			invoked = append(invoked, req.Method())
 			if req.Method() == "fail" {
 				return nil, jrpc2.Errorf(99, "failed")
+			}
+			if req.Method() == "failreq" {
+				return nil, jrpc2.Errorf(jrpc2.InvalidRequest, "upstream rejected it") // a notification stays unanswered all the same
 			}
 			return "R", nil
 		}
@@ -289,6 +292,9 @@ func c02RunOne(record []byte, push bool, prefix []int, mapOrders bool) (*vs.Exec
 			continue
 		}
 		gotArray = isArr
+		if len(ms) == 0 {
+			fail("C02.R4", "emitted record is not a JSON-RPC message (an array without members): "+o.Raw)
+		}
 		for _, m := range ms {
 			if err := wellFormedResponse(m); err != nil {
 				fail("C02.R4", "emitted message is not a valid response: "+err.Error())
@@ -388,10 +394,15 @@ func c02RunOne(record []byte, push bool, prefix []int, mapOrders bool) (*vs.Exec
 					if codeOf(*r) != -32601 {
 						fail("C02.R1", fmt.Sprintf("unknown or reserved method %q must yield -32601, got %s", m.Method, r.Raw))
 					}
-				case m.Method == "ok" || m.Method == "x.rpc.ok":
+				case m.Method == "ok" || m.Method == "x.rpc.ok" || m.Method == "rpcx":
 					wantHandlers++
 					if r.Str("result") != `"R"` {
 						fail("C02.R1", fmt.Sprintf("call of %q must yield the handler's result, got %s", m.Method, r.Raw))
+					}
+				case m.Method == "failreq":
+					wantHandlers++
+					if codeOf(*r) != -32600 {
+						fail("C02.R1", fmt.Sprintf("call of %q must yield the handler's error, got %s", m.Method, r.Raw))
 					}
 				case m.Method == "fail":
 					wantHandlers++
@@ -522,7 +533,7 @@ func c02Explore(r *SeqRun, record []byte, push, allOrders bool) {
 var (
 	c02Ver    = []string{"", `"jsonrpc":"2.0"`, `"jsonrpc":"1.0"`, `"jsonrpc":2`, `"jsonrpc":null`, `"jsonrpc":["2.0"]`, `"JSONRPC":"2.0"`}
 	c02ID     = []string{"", `"id":7`, `"id":-3`, `"id":0`, `"id":1.5`, `"id":1e3`, `"id":"s"`, `"id":""`, `"id":"1"`, `"id":null`, `"id":true`, `"id":[1]`, `"id":{}`, `"ID":7`, `"id":3,"Id":4`}
-	c02Method = []string{"", `"method":"ok"`, `"method":"fail"`, `"method":""`, `"method":"nope"`, `"method":"rpc.serverInfo"`, `"method":"rpc.nope"`, `"method":"rpc.a.b"`, `"method":"x.rpc.ok"`, `"method":5`, `"method":null`, `"method":["ok"]`, `"Method":"ok"`, `"method":"ok","METHOD":"nope"`}
+	c02Method = []string{"", `"method":"ok"`, `"method":"fail"`, `"method":""`, `"method":"nope"`, `"method":"rpc.serverInfo"`, `"method":"rpc.nope"`, `"method":"rpc.a.b"`, `"method":"x.rpc.ok"`, `"method":"rpcx"`, `"method":"failreq"`, `"method":5`, `"method":null`, `"method":["ok"]`, `"Method":"ok"`, `"method":"ok","METHOD":"nope"`}
 	c02Params = []string{"", `"params":[]`, `"params":[1]`, `"params":{}`, `"params":{"a":1}`, `"params":null`, `"params":0`, `"params":"s"`, `"params":true`}
 	c02Extra  = []string{"", `"x":1`, `"result":1`, `"result":null`, `"error":{"code":1,"message":"m"}`, `"error":5`}
 )
@@ -573,7 +584,7 @@ func c02Reps() []string {
 	return []string{
 		`{"jsonrpc":"2.0","id":1,"method":"ok"}`, `{"jsonrpc":"2.0","id":2,"method":"ok","params":[1]}`, `{"jsonrpc":"2.0","id":"a","method":"fail"}`,
 		`{"jsonrpc":"2.0","method":"ok"}`, `{"jsonrpc":"2.0","id":null,"method":"ok","params":{"a":1}}`, `{"jsonrpc":"2.0","method":"nope"}`,
-		`{"jsonrpc":"2.0","id":3,"method":"nope"}`, `{"jsonrpc":"2.0","id":4,"method":"rpc.serverInfo"}`, `{"jsonrpc":"2.0","id":5,"method":"rpc.nope"}`, `{"jsonrpc":"2.0","method":"rpc.nope"}`, `{"jsonrpc":"2.0","id":15,"method":"rpc.serverInfo.x"}`, `{"jsonrpc":"2.0","method":"rpc.a.b.c"}`, `{"jsonrpc":"2.0","id":16,"method":"rpc."}`,
+		`{"jsonrpc":"2.0","id":3,"method":"nope"}`, `{"jsonrpc":"2.0","id":4,"method":"rpc.serverInfo"}`, `{"jsonrpc":"2.0","id":5,"method":"rpc.nope"}`, `{"jsonrpc":"2.0","method":"rpc.nope"}`, `{"jsonrpc":"2.0","method":"failreq"}`, `{"jsonrpc":"2.0","id":null,"method":"failreq"}`, `{"jsonrpc":"2.0","id":15,"method":"rpc.serverInfo.x"}`, `{"jsonrpc":"2.0","method":"rpc.a.b.c"}`, `{"jsonrpc":"2.0","id":16,"method":"rpc."}`,
 		`{"jsonrpc":"1.0","id":6,"method":"ok"}`, `{"id":7,"method":"ok"}`, `{"jsonrpc":"2.0","id":8,"method":""}`, `{"jsonrpc":"2.0","id":9,"method":5}`,
 		`{"jsonrpc":"2.0","id":10,"method":"ok","params":0}`, `{"jsonrpc":"2.0","id":true,"method":"ok"}`, `{"jsonrpc":"2.0","id":11,"method":"ok","x":1}`,
 		`{"jsonrpc":"2.0","id":12,"method":"ok","result":1}`, `{"jsonrpc":"2.0","id":13,"result":1}`, `{"jsonrpc":"2.0","id":14,"error":{"code":1,"message":"m"}}`,
